@@ -175,6 +175,19 @@ CHECKS = {
              "-> untouched), leaving data and parity unchanged; repeated percentage scrubs with an advancing clock cover every stripe.",
         note="Non-split parity only; hash size >= 8; 'eventually' is checked as a bounded number of rounds.",
         design="DESIGN.md section 4, C15"),
+    "C17": dict(
+        category="exploration",
+        technique="differential property-based testing (Hypothesis): twin arrays, single-file vs split parity, driven by the same generated program",
+        engine="hypothesis-cli",
+        text="The same generated program (growth and shrinkage across split boundaries, syncs incl. -F/-R/-B, scrub, loss of a single "
+             "split file or a whole level followed by fix) runs on twin arrays; after every command the concatenation of the splits cut "
+             "to their recorded sizes must be byte-identical to the single-file parity on every stripe holding blocks, recorded sizes "
+             "are block multiples covered by the files, only the last used split grows and space is released from the end, the C06 "
+             "oracle holds through the recorded mapping, exit statuses agree; finally a data disk or a single split file is lost and "
+             "repaired to the snapshot, unused trailing splits are dropped from the configuration and dropping a used one is refused.",
+        note="2..8 splits per level with unaligned per-split limits of 2..11 blocks; 'Insufficient parity space' refusals are trivial "
+             "cases; alpha scan order and untrusted inodes keep the twins' allocation identical.",
+        design="DESIGN.md section 4, C17"),
 }
 
 NOT_YET = "check not built yet at this commit (planned in DESIGN.md section 4); not claimed until it runs"
